@@ -49,6 +49,10 @@ type FS struct {
 	Res   time.Duration // mtime resolution
 	Hooks Hooks
 	Calls map[string]int64 // per-op counters (reach measurement)
+	// DirSeed, when non-zero, makes Readdir hand out entries in directory
+	// order as a disk does (a hash order fixed by the seed) and not sorted by
+	// name; sorting is the caller's business (afero.ReadDir does it).
+	DirSeed uint64
 }
 
 var _ afero.Fs = (*FS)(nil)
@@ -621,6 +625,16 @@ func (f *File) Readdir(count int) ([]os.FileInfo, error) {
 		names = append(names, k)
 	}
 	sort.Strings(names)
+	if seed := f.fs.DirSeed; seed != 0 {
+		h := func(s string) uint64 {
+			x := seed ^ 14695981039346656037
+			for i := 0; i < len(s); i++ {
+				x = (x ^ uint64(s[i])) * 1099511628211
+			}
+			return x ^ x>>29
+		}
+		sort.SliceStable(names, func(i, j int) bool { return h(names[i]) < h(names[j]) })
+	}
 	if f.dirpos > len(names) {
 		f.dirpos = len(names)
 	}
